@@ -27,7 +27,8 @@ META = {
              'Workloads: bounded-exhaustive sequences (length <= 3, thorough 4) of 17 operations on a hand-built 4-node graph; '
              'random histories (length <= 40) on graphs from generated languages, coreLang and random hand-built graphs; '
              'non-trivial = history with >= 1 removal and >= 1 lookup-relevant addition; distinct = digest(start, history)'
-             '; added strata: model edited (link removed / put back / defense changed) before regenerate_graph and compared with a fresh graph; DEBUG log level; interference layer'),
+             '; added strata: model edited (link removed / put back / defense changed) before regenerate_graph and compared with a fresh graph; DEBUG log level; interference layer'
+             "; round 7: entry points appended directly to an attacker's list; node objects that left the graph may only list attackers that list them"),
     'assumptions': ['invariants are evaluated at quiescent points (after the outermost public call returned)'],
     'shards': {'quick': 8, 'thorough': 16},
     'quotas': {
